@@ -1,29 +1,45 @@
 (* Properties/C11.v — formatted output equals the specified rendering.
-   Statements only; proofs in Fmt/DigitsFacts.v Utf8Sweep.v RenderProofs.v FieldProofs.v.
+   Statements only; proofs in Fmt/DigitsFacts.v Utf8Sweep.v RenderProofs.v FieldProofs.v ShiftProofs.v
+   ParseSpecProofs.v FetchSpecProofs.v WholeProofs.v.
    `returns w t tt` : the computation made exactly the writer calls t and returned;
    `bytes_of t` : the bytes those calls denote (the same for every narrow writer, C17).      *)
 From Coq Require Import NArith ZArith List.
 From ST Require Import Base.Outcome Num.Digits Fmt.Strtol Fmt.Parser Fmt.ParserProofs Fmt.DigitsFacts
-  Fmt.Render Fmt.DriverProofs Fmt.Sinks Fmt.SinksProofs Fmt.RenderSpec Fmt.Utf8Sweep Fmt.RenderProofs Fmt.FieldProofs.
+  Fmt.Render Fmt.DriverProofs Fmt.Sinks Fmt.SinksProofs Fmt.RenderSpec Fmt.Utf8Sweep Fmt.RenderProofs Fmt.FieldProofs
+  Fmt.ParseSpecProofs Fmt.FetchSpecProofs Fmt.WholeProofs.
 Import ListNotations.
 Local Open Scope N_scope.
 
-(* FULL STATEMENT (render_model = render_spec for the whole format string):
-     forall fmt args b, Forall arg_range args -> spec_format (Some fmt) args = VBytes b ->
-       exists t, returns (driver (Some fmt) args) t tt /\ bytes_of t = b
-   Proved below: the part that carries the arithmetic — EVERY FIELD, i.e. for every format_spec
-   whose three numbers are ints (all combinations of alignment, pad, zero flag, '#', '+', radix
-   / character class, width, precision) and every value of every argument type, the writer
-   calls of the transcribed format_type overload spell exactly RenderSpec.render_field (or the
-   documented assertion where the spec says so).  Missing: that the transcribed scanner
-   (fetch_prefix / parse_format, index based) cuts the string into the same literals and
-   fields as RenderSpec.scan and that apply_format assigns the same arguments as
-   RenderSpec.assign; that part is tied by the correspondence run only (model = spec = code on
-   every generated format string). *)
-Theorem render_model_eq_spec_partial : forall sp x, spec_ints sp -> arg_range x ->
+(* render_model = render_spec, the whole format call: for every format string (no interior NUL,
+   shorter than 2^64) and every argument list whose values their C++ types can hold, the
+   transcribed driver (fetch_prefix / parse_format / apply_format / every format_type overload)
+   satisfies the verdict of the specification:
+     VBytes b : it returns, and the writer calls it made spell exactly b  — the format string
+                with "{{" "}}" reduced, literals copied, each field replaced by the rendering of
+                the argument the specification assigns to it;
+     VFail .. : it does not return: bad_format only if some field is malformed, out_of_range only
+                if some field's argument was not supplied, the documented assertion only if some
+                supplied integral argument meets a padded character conversion. *)
+Theorem render_model_eq_spec : forall (fmt : list N) (args : list arg),
+  Forall (fun b => b <> 0) fmt -> Forall arg_range args ->
+  N.of_nat (length fmt) < Base.Units.two64 -> N.of_nat (length args) < Base.Units.two64 ->
+  satisfies (driver (Some fmt) args) (spec_format (Some fmt) args).
+Proof. exact whole_render. Qed.
+Print Assumptions render_model_eq_spec.
+
+(* one field: every format_spec whose three numbers are ints (all combinations of alignment,
+   pad, zero flag, '#', '+', radix / character class, width, precision) and every value of every
+   argument type *)
+Theorem render_field_equal : forall sp x, spec_ints sp -> arg_range x ->
   field_matches (format_type sp x) (render_field sp x).
 Proof. exact field_render. Qed.
-Print Assumptions render_model_eq_spec_partial.
+Print Assumptions render_field_equal.
+
+(* the scanner: the transcribed specifier parser reads a field exactly as the specification *)
+Theorem parse_equal : forall fmt, Forall (fun b => b <> 0) fmt -> forall m t, skipn m fmt = 123 :: t ->
+  agree_parse fmt (field_spec (S (length t)) t default_spec) (parse_format (Strtol.cstr fmt) m).
+Proof. exact parse_format_vs_spec. Qed.
+Print Assumptions parse_equal.
 
 (* the integers on their own: signed types (unsigned negation for the magnitude) ... *)
 Theorem render_signed : forall bits sp v,
@@ -94,3 +110,10 @@ Example hypotheses_satisfiable :
   arg_range (AInt true 64 (-9223372036854775808)) /\ arg_range (AInt false 8 255) /\ arg_range (AChar (-23)) /\
   arg_range (AStr [65; 66]) /\ arg_range (AFloat (fun _ _ _ => [48])) /\ spec_ints default_spec.
 Proof. exact arg_range_example. Qed.
+
+Example verdicts_inhabited :
+  spec_format (Some [123; 125]) [AInt true 32 (-5)] = VBytes [45; 53] /\
+  spec_format (Some [97; 123; 123; 123; 35; 120; 125]) [AInt false 8 255] = VBytes [97; 123; 48; 120; 102; 102] /\
+  spec_format (Some [123; 125; 123]) [AInt true 32 1; AInt true 32 2] = VFail true false false /\
+  spec_format (Some [123; 38; 50; 125]) [AInt true 32 1] = VFail false true false.
+Proof. exact verdict_examples. Qed.
